@@ -83,13 +83,15 @@ func TestExploreToy(t *testing.T) {
 		t.Fatalf("violations %+v %v", r.Viol, r.KeyCounts)
 	}
 	// sharded exploration covers the same leaves exactly once
-	var total int64
-	for i := 0; i < 3; i++ {
-		ri := Explore(h, &shardSpec{2, i, 3}, time.Now().Add(time.Minute))
-		total += ri.Executions
-	}
-	if total != 24 {
-		t.Fatalf("shards cover %d executions", total)
+	for depth := 0; depth <= 6; depth++ {
+		var total int64
+		for i := 0; i < 3; i++ {
+			ri := Explore(h, &shardSpec{depth, i, 3}, time.Now().Add(time.Minute))
+			total += ri.Executions
+		}
+		if total != 24 {
+			t.Fatalf("shard depth %d: shards cover %d executions", depth, total)
+		}
 	}
 	t.Logf("24 executions, %d quiescence samples, %v per delivered event, goroutines left %d", QuiesceSamples, el/time.Duration(r.Events+5*2*4), r.Goroutines)
 }
